@@ -227,7 +227,7 @@ class FastHierarchyAnalyzer(HierarchyAnalyzerBase):
 
     def get_opt_idx(self, opt_idx: List[int], mask: np.ndarray = None, is_fixed: List[bool] = None,
                     exclude: set = None) -> Tuple[List[int], List[bool], Optional[int]]:
-        _, choice_opt_idx, activeness, i_comb = self.get_graph(opt_idx, mask=mask, is_fixed=is_fixed)
+        _, choice_opt_idx, activeness, i_comb = self.get_graph(opt_idx, mask=mask, is_fixed=is_fixed, exclude=exclude)
         return choice_opt_idx, activeness, i_comb
 
     def _get_comb_idx(self, opt_idx: List[int], include_mask: np.ndarray = None) \
